@@ -51,7 +51,45 @@ def gen_cases(tier, seed):
             c.pop('prehistory', None)
             k2 = len(c['spec']['statuses'])
             c['IC'] = [r.randrange(k2) for _ in range(g['n'])]
+        if c.get('weight_form') and r.random() < 0.25 and c['graph']['n'] >= 4:
+            # very uneven weights (one contact / one individual hundreds of times heavier than the rest: a hub-like rate next to many light
+            # ones), so that a weighted selection would need many proposals - any shortcut taken in that regime is exercised
+            g = dict(c['graph'])
+            ne, nn_ = len(g['edges']), g['n']
+            if ne:
+                ew = [r.choice([0.5, 1.0, 1.5]) for _ in range(ne)]
+                ew[r.randrange(ne)] = r.choice([300.0, 1000.0])
+                g['ew'] = {'ew_': ew}
+            nw = [r.choice([0.5, 1.0, 2.0]) for _ in range(nn_)]
+            nw[r.randrange(nn_)] = r.choice([200.0, 800.0])
+            g['nw'] = {'nw_': nw}
+            c['graph'] = g
+            c.pop('prehistory', None)
+            c['uneven'] = True
         c['tmax'] = c['tmin'] + r.choice([0.5, 2.0, 5.0])
+        out.append(c)
+    # larger networks with one dominant weight: candidate lists of 30-45 entries in which the heaviest outweighs the mean by more than 20x
+    for j in range(60 if q else 1500):
+        cs = case_seed(seed, PID + 'uneven', j)
+        r = random.Random(cs)
+        c = simreg.random_sim_case(r, 'Gillespie_simple_contagion', nmax=10)
+        desc = gen.random_graph(r, 30, 45, kinds=['gnp', 'regular', 'tree', 'star', 'cycle'])
+        desc['labels'] = r.choice(gen.LABEL_SCHEMES)
+        ne, nn_ = len(desc['edges']), desc['n']
+        ew = [r.choice([0.5, 1.0, 1.5]) for _ in range(ne)]
+        if ne:
+            ew[r.randrange(ne)] = r.choice([300.0, 1000.0])
+        nw = [r.choice([0.5, 1.0, 2.0]) for _ in range(nn_)]
+        nw[r.randrange(nn_)] = r.choice([200.0, 800.0])
+        desc['ew'], desc['nw'] = {'ew_': ew}, {'nw_': nw}
+        c['graph'] = desc
+        c['weight_form'] = r.choice(['label', 'function'])
+        c.pop('prehistory', None)
+        c.pop('spont_boost', None)
+        c.pop('nbr_boost', None)
+        k2 = len(c['spec']['statuses'])
+        c['IC'] = [r.randrange(k2) for _ in range(nn_)]
+        c.update({'kind': 'e2', 'full': True, 'tmax': c['tmin'] + r.choice([0.05, 0.2]), 'uneven': True})
         out.append(c)
     # endure: a weighted selection that sees K consecutive rejections (positive probability whenever weights differ)
     for j in range(12 if q else 60):
